@@ -26,7 +26,8 @@ from ..validators import get_validator
 
 class BaseStorage:
     def __init__(self, options):
-        self.options = options
+        # work on a copy: the caller's dict is usually Config.storage itself
+        self.options = dict(options)
         self.log = logging.getLogger("nostr_relay.storage")
         self.clients = weakref.WeakKeyDictionary()
 
